@@ -412,6 +412,9 @@ func mutate(r *hv.Rng, b []byte) []byte {
 }
 
 func gen(r *hv.Rng, i int, tier string) (string, hv.Val) {
+	if i%150 == 7 {
+		return genBig(r)
+	}
 	mt := mts[r.Intn(len(mts))]
 	if r.Chance(1, 3) { // the two hellos carry most of the parsing logic
 		mt = 1 + r.Intn(2)
